@@ -15,6 +15,12 @@
  *   D <j> <d1> <d2>                        j-th datagram emitted by the client arrives twice (delays d1,d2)
  *   Y <j> <d>                              j-th datagram emitted by the client is delayed by d ms
  *   E                                      end of case (run it)
+ *
+ * With srv=1 on the X line the peer is not scripted: a real libcoap server context (node 1 of the simulator) listens on the
+ * peers' addresses, with the resources  r (answers at once),  w (defers its answer with coap_register_async(delay 0); the
+ * server application releases it trig ms later with coap_async_trigger()),  v (defers it for trig ms with a timed async).
+ * A / N lines then name the resource (p=<r|w|v>), R lines are ignored, and
+ *   LS <j> / DS <j> <d1> <d2> / YS <j> <d>   do to the j-th datagram emitted by the SERVER what L / D / Y do to the client's
  */
 #include "simnet.h"
 #include <string.h>
@@ -25,19 +31,24 @@
 #define MAXS 4
 #define MAXC 10
 
-typedef struct { uint64_t t; int sess; int con; int tok; int fail; int done; int after_prev; int nprev; } app_t;
+typedef struct { uint64_t t; int sess; int con; int tok; int fail; int done; int after_prev; int nprev; char path; } app_t;
 typedef struct { int n; struct { char kind[8]; int nd; int d[4]; } a[4]; } react_t;
 typedef struct { int kind; /*0 pass 1 lost 2 dup 3 delay*/ int d1, d2; } txv_t;
 
 static struct {
-  int id, ato, rf, mr, ns, nsess, tol;
+  int id, ato, rf, mr, ns, nsess, tol, srv, trig;
   uint64_t until;
   app_t app[MAXA]; int napp;
   react_t react[256][MAXC]; int have_react[256][MAXC];
   txv_t txv[MAXR];
+  txv_t stxv[MAXR];
 } cs;
 
-static coap_context_t *ctx;
+static coap_context_t *ctx, *sctx;
+static int server_tx_count;
+#define MAXDEF 32
+static struct { coap_async_t *a; uint64_t at; } deferred[MAXDEF];
+static int ndeferred;
 static coap_session_t *sess[MAXS];
 static coap_address_t peer_addr[MAXS];
 static uint64_t t_start;
@@ -121,16 +132,44 @@ h_event(coap_session_t *s, const coap_event_t ev) {
 
 static void
 on_tx(int node, coap_session_t *s, const sim_dgram_t *dg, sim_verdict_t *v) {
-  int j = client_tx_count++;
-  (void)node; (void)s; (void)dg;
+  int srv = sctx && s && s->context == sctx;
+  int j = srv ? server_tx_count++ : client_tx_count++;
+  const txv_t *x = srv ? cs.stxv : cs.txv;
+  (void)node; (void)dg;
   if (j < MAXR) {
-    switch (cs.txv[j].kind) {
+    switch (x[j].kind) {
     case 1: v->copies = 0; break;
-    case 2: v->copies = 2; v->delay[0] = cs.txv[j].d1; v->delay[1] = cs.txv[j].d2; break;
-    case 3: v->copies = 1; v->delay[0] = cs.txv[j].d1; break;
+    case 2: v->copies = 2; v->delay[0] = x[j].d1; v->delay[1] = x[j].d2; break;
+    case 3: v->copies = 1; v->delay[0] = x[j].d1; break;
     default: break;
     }
   }
+}
+
+/* ---- the server application (srv=1) ---- */
+static void
+h_srv(coap_resource_t *r, coap_session_t *s, const coap_pdu_t *req, const coap_string_t *q, coap_pdu_t *resp) {
+  coap_str_const_t *path = coap_resource_get_uri_path(r);
+  char tok[32] = "";
+  coap_bin_const_t t = coap_pdu_get_token(req);
+  coap_async_t *as = NULL;
+  (void)q;
+  tr_hex(tok, t.s, t.length > 8 ? 8 : t.length);
+  if (path->s[0] != 'r')
+    as = coap_find_async(s, t);
+  tr("\"e\":\"SrvHandler\",\"path\":\"%c\",\"tok\":\"%s\",\"ty\":%d,\"mid\":%d,\"again\":%d", path->s[0], tok,
+     coap_pdu_get_type(req), coap_pdu_get_mid(req), as ? 1 : 0);
+  if (path->s[0] != 'r' && !as) {
+    as = coap_register_async(s, req, path->s[0] == 'w' ? 0 : (coap_tick_t)cs.trig * COAP_TICKS_PER_SECOND / 1000);
+    if (as && path->s[0] == 'w' && ndeferred < MAXDEF) {
+      deferred[ndeferred].a = as;
+      deferred[ndeferred].at = sim_now + (uint64_t)cs.trig;
+      ndeferred++;
+    }
+    return;
+  }
+  coap_pdu_set_code(resp, COAP_RESPONSE_CODE_CONTENT);
+  coap_add_data(resp, 1, path->s);
 }
 
 static void
@@ -229,6 +268,14 @@ on_peer_rx(const sim_dgram_t *dg) {
 static int
 on_round(void) {
   int i, n = 0;
+  for (i = 0; i < ndeferred; i++)
+    if (deferred[i].a && deferred[i].at <= sim_now) {
+      coap_async_t *a = deferred[i].a;
+      deferred[i].a = NULL;
+      tr("\"e\":\"SrvRelease\"");
+      coap_async_trigger(a);
+      n++;
+    }
   for (i = 0; i < cs.napp; i++) {
     app_t *a = &cs.app[i];
     coap_pdu_t *pdu;
@@ -248,7 +295,7 @@ on_round(void) {
       continue;
     tk = (uint8_t)a->tok;
     coap_add_token(pdu, 1, &tk);
-    coap_add_option(pdu, COAP_OPTION_URI_PATH, 1, (const uint8_t *)"r");
+    coap_add_option(pdu, COAP_OPTION_URI_PATH, 1, (const uint8_t *)(a->path ? &a->path : "r"));
     mid = coap_pdu_get_mid(pdu);
     tr("\"e\":\"Call\",\"api\":\"send\",\"s\":%d,\"ty\":%d,\"mid\":%d,\"tok\":\"%02x\"", a->sess + 1,
        a->con ? 0 : 1, mid, tk);
@@ -262,6 +309,9 @@ static uint64_t
 next_app_time(void) {
   uint64_t nx = UINT64_MAX;
   int i;
+  for (i = 0; i < ndeferred; i++)
+    if (deferred[i].a && deferred[i].at < nx)
+      nx = deferred[i].at;
   for (i = 0; i < cs.napp; i++) {
     if (cs.app[i].done)
       continue;
@@ -280,7 +330,8 @@ run_case(void) {
   coap_fixed_point_t fp;
   sim_reset(1000);
   t_start = sim_now;
-  peer_rx_count = client_tx_count = 0;
+  peer_rx_count = client_tx_count = server_tx_count = 0;
+  ndeferred = 0;
   peer_mid = 0x7000;
   nsepmap = 0;
   memset(nconcl, 0, sizeof(nconcl));
@@ -294,6 +345,23 @@ run_case(void) {
   coap_register_response_handler(ctx, h_resp);
   coap_register_nack_handler(ctx, h_nack);
   coap_register_event_handler(ctx, h_event);
+  sctx = NULL;
+  if (cs.srv) {
+    const char *paths[] = { "r", "w", "v" };
+    sctx = coap_new_context(NULL);
+    for (i = 0; i < cs.nsess; i++) {
+      coap_address_t a;
+      sim_addr(&a, "127.0.0.1", (uint16_t)(40001 + i));
+      if (!coap_new_endpoint(sctx, &a, COAP_PROTO_UDP))
+        exit(2);
+    }
+    for (i = 0; i < 3; i++) {
+      coap_resource_t *r = coap_resource_init(coap_make_str_const(paths[i]), 0);
+      coap_register_request_handler(r, COAP_REQUEST_GET, h_srv);
+      coap_add_resource(sctx, r);
+    }
+    sim_add_node(sctx);
+  }
   for (i = 0; i < cs.nsess; i++) {
     sim_addr(&peer_addr[i], "127.0.0.1", (uint16_t)(40001 + i));
     sess[i] = coap_new_client_session(ctx, NULL, &peer_addr[i], COAP_PROTO_UDP);
@@ -307,9 +375,9 @@ run_case(void) {
   {
     /* what the session itself reports (a refused setting keeps the default) */
     coap_fixed_point_t a = coap_session_get_ack_timeout(sess[0]), r = coap_session_get_ack_random_factor(sess[0]);
-    tr("\"e\":\"Reset\",\"id\":%d,\"ato\":%d,\"rf\":%d,\"mr\":%d,\"ns\":%d,\"nsess\":%d,\"tol\":%d", cs.id,
+    tr("\"e\":\"Reset\",\"id\":%d,\"ato\":%d,\"rf\":%d,\"mr\":%d,\"ns\":%d,\"nsess\":%d,\"tol\":%d,\"srv\":%d,\"trig\":%d", cs.id,
        a.integer_part * 1000 + a.fractional_part, r.integer_part * 1000 + r.fractional_part,
-       (int)coap_session_get_max_retransmit(sess[0]), (int)coap_session_get_nstart(sess[0]), cs.nsess, cs.tol);
+       (int)coap_session_get_max_retransmit(sess[0]), (int)coap_session_get_nstart(sess[0]), cs.nsess, cs.tol, cs.srv, cs.trig);
   }
   for (i = 0; i < cs.napp; i++)
     if (cs.app[i].fail)
@@ -324,6 +392,11 @@ run_case(void) {
   sim_remove_node(ctx);
   coap_free_context(ctx);
   ctx = NULL;
+  if (sctx) {
+    sim_remove_node(sctx);
+    coap_free_context(sctx);
+    sctx = NULL;
+  }
   tr("\"e\":\"End\",\"steps\":%d", sim_steps);
 }
 
@@ -371,6 +444,8 @@ main(int argc, char **argv) {
       cs.nsess = kv(line, "nsess", 1);
       cs.tol = kv(line, "tol", 16);
       cs.until = (uint64_t)kv(line, "until", 300000);
+      cs.srv = kv(line, "srv", 0);
+      cs.trig = kv(line, "trig", 5000);
       if (cs.nsess > MAXS) cs.nsess = MAXS;
     } else if ((line[0] == 'A' || line[0] == 'N') && cs.napp < MAXA) {
       app_t *a = &cs.app[cs.napp];
@@ -384,6 +459,7 @@ main(int argc, char **argv) {
         a->done = 0;
         a->after_prev = line[0] == 'N';
         a->nprev = 0;
+        a->path = strstr(line, " p=") ? strstr(line, " p=")[3] : 0;
         if (a->sess >= 0 && a->sess < cs.nsess) {
           int q;
           for (q = 0; q < cs.napp; q++)
@@ -420,17 +496,19 @@ main(int argc, char **argv) {
         }
       }
     } else if (line[0] == 'L') {
-      int j = atoi(line + 1);
-      if (j >= 0 && j < MAXR) cs.txv[j].kind = 1;
+      int sv = line[1] == 'S', j = atoi(line + 1 + sv);
+      if (j >= 0 && j < MAXR) (sv ? cs.stxv : cs.txv)[j].kind = 1;
     } else if (line[0] == 'D') {
-      int j, d1, d2;
-      if (sscanf(line + 1, "%d %d %d", &j, &d1, &d2) == 3 && j >= 0 && j < MAXR) {
-        cs.txv[j].kind = 2; cs.txv[j].d1 = d1; cs.txv[j].d2 = d2;
+      int sv = line[1] == 'S', j, d1, d2;
+      if (sscanf(line + 1 + sv, "%d %d %d", &j, &d1, &d2) == 3 && j >= 0 && j < MAXR) {
+        txv_t *x = &(sv ? cs.stxv : cs.txv)[j];
+        x->kind = 2; x->d1 = d1; x->d2 = d2;
       }
     } else if (line[0] == 'Y') {
-      int j, d1;
-      if (sscanf(line + 1, "%d %d", &j, &d1) == 2 && j >= 0 && j < MAXR) {
-        cs.txv[j].kind = 3; cs.txv[j].d1 = d1;
+      int sv = line[1] == 'S', j, d1;
+      if (sscanf(line + 1 + sv, "%d %d", &j, &d1) == 2 && j >= 0 && j < MAXR) {
+        txv_t *x = &(sv ? cs.stxv : cs.txv)[j];
+        x->kind = 3; x->d1 = d1;
       }
     } else if (line[0] == 'E') {
       run_case();
